@@ -30,7 +30,8 @@ S = Suite(
     what="reflection in x, y and both; axis swap; length and speed similarity; two public solver "
          "calls per case on related inputs",
     bound="grids 6..24 x 6..20 (even with truncated/full modes, odd with clamped modes), dx!=dy, "
-          "hand-built anisotropic veering profiles (Kx!=Ky!=Kz, 5 families, nz 6..12), random / "
+          "hand-built anisotropic veering profiles (Kx!=Ky!=Kz, 5 families, nz 6..12; 30 % of the cases with a "
+          "subset of the components u, v, Kx, Ky, Kz held constant with height, 12 patterns), random / "
           "sparse sources, footprint and dispersion mode (with and without re-centring), halo 0 "
           "for mirrors, halo 0/None/commensurate/incommensurate for swap, halo 0 / robustly "
           "incommensurate / None (s a power of two) for scalings, factors 1e-6..1e6 (every "
@@ -77,9 +78,14 @@ def make_profiles(spec):
     speed = spec["U"] * np.log(1.0 + z / z0) / np.log(1.0 + zt / z0)
     ang = np.deg2rad(spec["wdir"] + spec.get("veer", 0.0) * s)
     K = 0.16 * z + spec.get("kmin", 0.02)
-    return z, (speed * np.cos(ang), speed * np.sin(ang),
-               spec["ax"] * K * (1.0 + 0.3 * s), spec["ay"] * K * (1.0 - 0.2 * s),
-               spec["az"] * K * (1.0 + 0.1 * s * s))
+    comps = [speed * np.cos(ang), speed * np.sin(ang),
+             spec["ax"] * K * (1.0 + 0.3 * s), spec["ay"] * K * (1.0 - 0.2 * s),
+             spec["az"] * K * (1.0 + 0.1 * s * s)]
+    # "const": components (0..4 = u, v, Kx, Ky, Kz) held at their mid-column value -- every pattern of
+    # height-independent and height-dependent components is a legitimate column
+    for k in spec.get("const", ()):
+        comps[k] = np.full(nz, float(comps[k][nz // 2]))
+    return z, tuple(comps)
 
 
 def make_source(kind, ny, nx, seed):
@@ -272,6 +278,9 @@ FACTORS_POW2 = [2.0 ** -20, 2.0 ** -14, 2.0 ** -10, 0.25, 0.5, 2.0, 64.0, 2.0 **
                 2.0 ** 20]
 
 
+CONST_PATTERNS = [[0, 1, 2], [0, 1, 3], [0, 1, 2, 3], [0, 1], [2, 3], [2], [3], [0, 1, 4], [0], [1], [0, 1, 2, 3, 4], [4]]
+
+
 def generate(tier, rng):
     n_each = 200 if tier == "quick" else 6000
 
@@ -293,6 +302,9 @@ def generate(tier, rng):
             modes = [2 * rng.randint(1, nxe // 2), 2 * rng.randint(1, nye // 2)]
         pk = rng.randrange(len(PROFILES))
         nz = PROFILES[pk]["nz"]
+        prof = PROFILES[pk]
+        if rng.random() < 0.3:
+            prof = dict(prof, const=CONST_PATTERNS[rng.randrange(len(CONST_PATTERNS))])
         fp = rng.random() < 0.5
         if fp or rng.random() < 0.5:
             im, jm = rng.randint(0, nx - 1), rng.randint(0, ny - 1)
@@ -300,7 +312,7 @@ def generate(tier, rng):
             im, jm = 0, 0
         return dict(nx=nx, ny=ny, dx=dx, dy=dy, modes=modes, footprint=fp, im=im, jm=jm,
                     level=rng.choice([1, nz // 2, nz - 1, rng.randint(1, nz - 1)]),
-                    prof=PROFILES[pk], src=rng.choice(["random", "sparse"]),
+                    prof=prof, src=rng.choice(["random", "sparse"]),
                     seed=rng.randint(0, 2 ** 31 - 1), bg=rng.choice([0.0, 1.5])), halo
 
     for it in range(n_each):
